@@ -1,8 +1,9 @@
 import QP.Base
+import QP.Model.PT
+/-! C01: the model and the line protocol live in `QP.Model.PT` (shared by C01, C02, C04). -/
 namespace QP.C01
 open Sexp
 
-def handle : List Sexp → Sexp
-  | _ => Sexp.err "c01-not-implemented"
+def handle (args : List Sexp) : Sexp := QP.PT.handle args
 
 end QP.C01
